@@ -345,6 +345,34 @@ class ProfileFamily:
                 raise Violation('raises', 'unnormalize', repr(out))
             st.norm_calls.append('un')
             st.seen.append('U')
+            # independent of the replayed reference: an unnormalized
+            # profile is what a never-normalized fresh object reports
+            nv = call(getattr, o, 'normalization_value')
+            if isinstance(nv, Raised) or nv != 1.0:
+                raise Violation('order', 'normalization_value',
+                                f'{nv!r} after unnormalize (history '
+                                f'{st.seen})')
+            raw = self.build(st.cfg, st.scene)
+            rp = self._read(raw, 'profile')
+            rpv = np.asarray(getattr(rp, 'value', rp), dtype=float)
+            if (isinstance(rp, Raised) or np.any(np.isinf(rpv))
+                    or not np.any(np.isfinite(rpv))):
+                # a bin without unmasked area gives an infinite profile
+                # value and hence an infinite normalization: nothing can
+                # be restored from that, and nothing is asserted
+                st.stats.probe('infinite_profile_value')
+                return
+            for a in ('profile', 'profile_error', 'data_profile'):
+                if a == 'data_profile' and st.cfg['cls'] != 'radial':
+                    continue
+                d = diff(self._read(o, a), self._read(raw, a), 1e-10, 0.0,
+                         check_dtype=False)
+                # unit representation may differ (dimensionless Quantity)
+                if d and 'Quantity' not in d and 'unit' not in d:
+                    raise Violation('order', a,
+                                    f'after unnormalize (history {st.seen}) '
+                                    f'{a} is not the never-normalized '
+                                    f'value: {d}')
             return
         if kind == 'ee':
             fn = ('calc_ee_at_radius' if op['which'] == 'ee_at_radius'
